@@ -128,6 +128,17 @@ CHECKS = {
         note="modelled not verified: iptables/nft/pfctl command semantics (DESIGN Appendix B; not validated against the real kernel in this check), SIGKILL/SIGTERM modelled as a dialogue cut. The all-exits clause is partial (finite sweeps with the bounds in the statements).",
         design="DESIGN.md §5 C04",
         technique="Coq proof (frame invariant over all command sequences; finite sweeps by vm_compute for the all-exits clause) + trace/state correspondence with fault injection at every command index"),
+
+    "C17": dict(
+        text=("21 theorems (Props/C17.v): for all ip < 2^32 and w <= 32 the computed network has host bits cleared and network bits kept (and this is what "
+              "the Python integer arithmetic of _list_routes computes); _maskbits on every contiguous netmask; abbreviated BSD notation; every well-formed "
+              "iproute2 / netstat (Linux and BSD) line yields the canonical network; default/127.x/0.x filtered; for EVERY tool output, arbitrary bytes "
+              "included, each line yields a canonical route or is skipped (as-found code refuted: F7, fixed); delivery: for advertisements <= 65535 bytes "
+              "the client adds exactly the advertised networks and then starts the firewall, larger ones hit Mux.send's assert (known finding F6). "
+              "Tied to /repo by running the real server route functions with a fake Popen on generated routing tables, server.main up to the ROUTES frame and client._main's onroutes."),
+        note="modelled not verified: Python re (recogniser differential-tested against the pattern read from source), glibc inet_aton/inet_ntoa, CPython int() incl. the 4300-digit limit; win32 branch not covered; iproute2 host routes without '/len' are skipped by the code (recorded as an observation).",
+        design="DESIGN.md §5 C17",
+        technique="Coq proof (bit arithmetic via div/mod, recognisers, totality of the line scanner) + differential correspondence with an ipaddress oracle"),
 }
 
 NOT_YET = {}
